@@ -1077,6 +1077,20 @@ where
         break existing_future.clone();
       }
 
+      // 2b. See `Cache::load_value_blocking`: a load that finished between our
+      //     optimistic miss and this point has already inserted the value (and
+      //     only then removed its marker); serve it instead of loading again.
+      {
+        let shard = self.shared.store.get_shard(key);
+        let guard = shard.map.read_async().await;
+        if let Some(entry) = guard.get(key) {
+          if !entry.is_expired(self.shared.time_to_idle) {
+            self.shared.metrics.record_hits(index, 1);
+            return entry.value();
+          }
+        }
+      }
+
       // 3. We are the "leader". This is the ONLY time a MISS is recorded.
       self.shared.metrics.record_misses(index, 1);
       // Create a new future, insert it.
